@@ -72,6 +72,41 @@ def parse(s, cfg):
     return etree.fromstring(s, parser)
 
 
+XMLID = "{http://www.w3.org/XML/1998/namespace}id"
+
+
+def moves_xmlid(L, script):
+    """some MoveNode of the script moves a subtree in which an element carries xml:id (the script is replayed with
+    xmldiff.patch.Patcher on a copy of the prepared left tree to find the moved node)"""
+    from xmldiff import patch
+    if not any(type(a).__name__ == "MoveNode" for a in script):
+        return False
+    t, p = deepcopy(L), patch.Patcher()
+    for a in script:
+        try:
+            if type(a).__name__ == "MoveNode":
+                ns = {k: v for k, v in t.nsmap.items() if k}
+                n = t.xpath(a.node, namespaces=ns)[0]
+                if any(XMLID in e.attrib for e in n.iter() if isinstance(e.tag, str)):
+                    return True
+            p.handle_action(a, t)
+        except Exception:  # noqa
+            return False
+    return False
+
+
+def diffns_in_input(c):
+    """some element or attribute of the INPUT documents is in the diff namespace"""
+    for s in (c["left"], c["right"]):
+        try:
+            for e in etree.fromstring(s).iter():
+                if isinstance(e.tag, str) and (e.tag.startswith(D) or any(k.startswith(D) for k in e.attrib)):
+                    return True
+        except Exception:  # noqa
+            pass
+    return False
+
+
 def run_impl(c):
     """c: dict(left, right, cfg, opts, late, [mutate seed]).  Fills in what the implementation did."""
     import xmldiff.diff_match_patch as M
@@ -100,6 +135,7 @@ def run_impl(c):
         if c.get("mutate") is not None:
             script = mutate_script(random.Random(c["mutate"]), script)
         c["script"] = script
+        c["moves_xmlid"] = moves_xmlid(L, script)
         try:
             out = fm.format(script, L)
             c["out_str"] = out
@@ -426,7 +462,11 @@ def repeated_formatting(c):
     return False
 
 
-def key_C08(c):
+def key_C08(c, msg=""):
+    if diffns_in_input(c):
+        return "diff-namespace-in-input"
+    if "does not parse as XML" in msg and "already defined" in msg and c.get("moves_xmlid"):
+        return "moved-node-with-xml-id"
     if reserved_prefix(c):
         return "reserved-ns-prefix-on-root"
     if c["cfg"]["replace"] and c["cfg"]["tt"]:
@@ -465,7 +505,10 @@ def oracle_proj(c, mode):
     if "out_str" not in c:
         return None, None          # totality is C08's claim
     cfg = c["cfg"]
-    out = etree.fromstring(c["out_str"])
+    try:
+        out = etree.fromstring(c["out_str"])
+    except etree.XMLSyntaxError:
+        return None, None          # an output that does not parse is C08's claim (reported there)
     doc = parse(c["right"] if mode == "accept" else c["left"], cfg)
     got, want = project(out, mode, cfg), project_ref(strip_comments_keep(doc), cfg)
     if nf_eq(got, want):
@@ -480,7 +523,8 @@ def oracle_proj(c, mode):
 
 
 def oracle_C08(c):
-    return oracle_C08_msg(c), key_C08(c)
+    msg = oracle_C08_msg(c)
+    return msg, key_C08(c, msg or "")
 
 
 def oracle_C09(c):
@@ -649,7 +693,14 @@ def gen_struct(rng, n):
     for _ in range(n):
         ns = rng.random() < 0.3
         L, R = gen.gen_pair(rng, 8, ns=ns, comments=True, words=WORDS if rng.random() < 0.6 else None)
-        out.append({"kind": "struct", "left": xml(L), "right": xml(R), "cfg": rand_cfg(rng),
+        l, r = xml(L), xml(R)
+        if rng.random() < 0.12:
+            # xml:id on a few elements, unique across both documents (an id value that sits on a deleted element and on
+            # another element of the right document is reported separately); where such a node moves the case falls
+            # under the open finding moved-node-with-xml-id
+            l = add_xmlids(rng, l, "idL")
+            r = add_xmlids(rng, r, "idR")
+        out.append({"kind": "struct", "left": l, "right": r, "cfg": rand_cfg(rng),
                     "opts": rng.choice(gen.OPTION_SETS), "late": rng.random() < 0.15})
     return out
 
@@ -818,6 +869,44 @@ def gen_reserved():
              "opts": {}, "late": False} for l, r in RESERVED_STREAM]
 
 
+XMLID_STREAM = [
+    # a moved subtree carries xml:id: the output has the id twice and does not re-parse (open finding moved-node-with-xml-id)
+    ('<r><a><b xml:id="n1">t</b></a><c/></r>', '<r><a/><c><b xml:id="n1">t</b></c></r>'),
+    ('<r><a><b><k xml:id="n2"/>t</b></a><c/></r>', '<r><a/><c><b><k xml:id="n2"/>t</b></c></r>'),
+    ('<r><a xml:id="x"><p>one</p></a><b><q>two</q></b></r>', '<r><b><q>two</q><a xml:id="x"><p>one</p></a></b></r>'),
+    # xml:id on nodes that do NOT move: must re-parse
+    ('<r><a><b xml:id="n1">t</b></a><c/></r>', '<r><a><b xml:id="n1">u</b></a><c/><d/></r>'),
+    ('<r xml:id="top"><a xml:id="n1"/><b/></r>', '<r xml:id="top"><b/><a xml:id="n1" k="v"/></r>'),
+]
+DIFFNS_STREAM = [
+    # input documents that carry diff-namespace marks themselves (open finding diff-namespace-in-input)
+    ('<r xmlns:diff="%s"><a diff:delete=""><x/></a><b/></r>' % DIFF_NS, '<r xmlns:diff="%s"><a diff:delete=""><x/><y/></a><b/></r>' % DIFF_NS),
+    ('<r xmlns:diff="%s"><a diff:insert="">t</a><b/></r>' % DIFF_NS, '<r xmlns:diff="%s"><a diff:insert="">u</a><b/></r>' % DIFF_NS),
+    ('<r xmlns:diff="%s"><a>x <diff:delete>y</diff:delete></a><b/></r>' % DIFF_NS, '<r xmlns:diff="%s"><a>x <diff:delete>y</diff:delete> z</a></r>' % DIFF_NS),
+]
+
+
+def gen_labelled():
+    out = []
+    for kind, stream in (("xmlid", XMLID_STREAM), ("diffns", DIFFNS_STREAM)):
+        for l, r in stream:
+            out.append({"kind": kind, "left": l, "right": r, "cfg": {"normalize": WS_NONE, "replace": False, "tt": [], "fmt": []},
+                        "opts": {}, "late": False})
+    return out
+
+
+def add_xmlids(rng, s, pre="id"):
+    """the document s with xml:id (unique within the document, prefix `pre`) on a few of its elements"""
+    try:
+        t = etree.fromstring(s)
+    except Exception:  # noqa
+        return s
+    els = [e for e in t.iter() if isinstance(e.tag, str)]
+    for i, e in enumerate(rng.sample(els, min(len(els), rng.randint(1, 2)))):
+        e.set(XMLID, "%s%d" % (pre, i))
+    return etree.tostring(t).decode()
+
+
 def gen_known():
     out = []
     for k in KNOWN_STREAM:
@@ -919,6 +1008,7 @@ def gen_inputs(run, rng):
     nexh = len(cases)
     cases += gen_known()
     cases += gen_reserved()
+    cases += gen_labelled()
     cases += gen_texts(rng, quick)
     cases += gen_prefixes(rng, 30 if quick else 300)
     cases += gen_lines(rng, 5 if quick else 60)
@@ -932,6 +1022,59 @@ def gen_inputs(run, rng):
         c["kind"] = "mutated"; c["mutate"] = rng.randrange(1 << 30)
     cases += mut
     return cases, nexh
+
+
+# ----------------------------------------------------------------------------
+# one parsed left tree diffed against several revisions (format() must not write into the caller's tree)
+
+SEQ_FIXED = [
+    ("<r><a>one</a><b/></r>", ["<r><a>two</a><b/></r>", "<r><a>one</a><b/><c/></r>", "<r><b/><a>one</a></r>"]),
+    ('<doc><p k="1">x y</p><q/></doc>', ['<doc><p k="2">x y</p><q/></doc>', '<doc><q/><p k="1">x y z</p></doc>']),
+    ("<r><a><b>t</b></a><c/></r>", ["<r><a/><c><b>t</b></c></r>", "<r><a><b>u</b></a></r>", "<r><a><b>t</b><d/></a><c/></r>"]),
+]
+
+
+def run_sequence(left, rights):
+    """parse `left` ONCE and diff that tree object against every right document in turn through main.diff_trees with a
+    fresh XMLFormatter() (no text tags: with text tags prepare() rewrites the caller's tree by design); every diff must
+    complete and equal the diff obtained from a freshly parsed left.  Returns a description of the first difference."""
+    from xmldiff import main as xm, formatting as F
+
+    def one(L, r):
+        try:
+            return xm.diff_trees(L, etree.fromstring(r), formatter=F.XMLFormatter())
+        except Exception as ex:  # noqa
+            return "EXC %s: %s" % (type(ex).__name__, str(ex)[:120])
+    refs = [one(etree.fromstring(left), r) for r in rights]
+    if any(x.startswith("EXC ") for x in refs):
+        return None     # the single diff fails already: the per-input oracle's business
+    L = etree.fromstring(left)
+    for i, r in enumerate(rights):
+        got = one(L, r)
+        if got != refs[i]:
+            return ("diff no. %d of ONE parsed left tree against successive right documents differs from the diff of a freshly parsed "
+                    "left tree (format() wrote into the caller's tree?): got %s, expected %s" % (i + 1, got[:300], refs[i][:300]))
+    return None
+
+
+def gen_sequences(rng, n):
+    out = [(l, list(rs)) for l, rs in SEQ_FIXED]
+    for _ in range(n):
+        L = gen.gen_tree(rng, rng.randint(2, 7), ns=False, comments=False)
+        rights = [xml(gen.mutate_tree(rng, L)) for _ in range(rng.randint(2, 3))]
+        out.append((xml(L), rights))
+    return out
+
+
+def check_sequences(run, rng):
+    quick = run.tier == "quick"
+    seqs = gen_sequences(rng, 60 if quick else 600)
+    viols = []
+    for l, rs in seqs:
+        why = run_sequence(l, rs)
+        if why:
+            viols.append({"what": why, "replay": {"kind": "sequence", "left": l, "right": rs[0], "rights": rs, "finding_key": None}})
+    return len(seqs), viols
 
 
 # ----------------------------------------------------------------------------
@@ -961,12 +1104,19 @@ def main(run, focus):
     for c in cases:
         if not c.get("supported") or "script" not in c or c["kind"] == "mutated":
             continue
+        if focus != "C08" and diffns_in_input(c):
+            continue        # C09 / C10 speak of unmarked input documents (marked inputs: C08 finding diff-namespace-in-input)
         judged += 1
         why, key = orc(c)
         if why:
             rp = describe(c)
             rp["finding_key"] = key
             viols.append({"what": why, "replay": rp})
+    nseq = 0
+    if focus == "C08":
+        nseq, sv = check_sequences(run, random.Random(run.seed + 11))
+        viols += sv
+        run.log("one parsed left tree diffed against 2-3 revisions in sequence: %d sequences, %d differ" % (nseq, len(sv)))
     # report the unexplained ones first, then one representative per known key
     viols.sort(key=lambda v: (v["replay"]["finding_key"] is not None, len(v["replay"]["left"]) + len(v["replay"]["right"])))
     nknown = sum(1 for v in viols if v["replay"]["finding_key"])
@@ -990,7 +1140,8 @@ def main(run, focus):
                         pass
         bad = [idx[i] for i in b]
     # premises (run_ok) and statements (C09 / C10) evaluated on the model, configurations without text tags
-    idx2 = [i for i in idx if not cases[i]["cfg"]["tt"] and cases[i]["kind"] not in ("mutated", "known") and "out" in cases[i]
+    idx2 = [i for i in idx if not cases[i]["cfg"]["tt"] and cases[i]["kind"] not in ("mutated", "known", "diffns") and "out" in cases[i]
+            and not diffns_in_input(cases[i])
             and not has_comment_tail(cases[i]["left"], cases[i]["right"])]
     bad2, log2 = [], ""
     if pinfo.get("build_ok"):
@@ -1095,7 +1246,10 @@ def main(run, focus):
                 "elements that differ between left and right ONLY in white space (content / attribute values), white space significant; "
                 "documents with several same-tag sibling sections where an earlier section moves into a later one between inserts into "
                 "several of them (the same target path string denotes different parents along the script); the differ's scripts mutated (wrong paths, "
-                "positions, attribute names) for the error paths; a labelled stream of inputs under the recorded findings.  DMP clock: "
+                "positions, attribute names) for the error paths; xml:id (unique per document) on a share of the seeded documents; labelled "
+                "streams of inputs under the recorded findings (incl. moved xml:id-bearing subtrees, diff-namespace marks in the input); "
+                "for C08: one parsed left tree diffed against 2-3 revisions in sequence with fresh formatters, each diff compared with "
+                "the diff of a freshly parsed left tree.  DMP clock: "
                 "never late, or late at every test.  Compared exactly: both prepared trees (attribute order, None vs ''), the output "
                 "tree before serialisation or the exception class.  non-trivial = distinct input with a non-empty script"
                 % (3 if run.tier == "quick" else 4, nexh, TT_TAGS),
@@ -1110,6 +1264,8 @@ def main(run, focus):
         "namespaces are declared on the root element or bound by InsertNamespace, one URI per prefix (Clark names in the model; "
         "etree.cleanup_namespaces is invisible in that form)",
         "no comments / processing instructions outside the root element; no processing instructions at all",
+        "C09 / C10: the input documents carry no element or attribute of the diff namespace (for such inputs 'every marked change' "
+        "would include the documents' own marks); they are judged by C08 only (open finding diff-namespace-in-input)",
         "no document binds a prefix of the form ns<k> (lxml's own): such inputs are the open finding reserved-ns-prefix-on-root, "
         "run as a labelled stream outside the model",
         "serialisation and re-parsing of the output are lxml's: well-formedness of the printed string is TESTED by re-parsing (oracle), not proved",
@@ -1136,6 +1292,10 @@ def replay(run, path, focus):
     if "left" not in d:
         print("replay names a broken tie, not an input:", d.get("broken"))
         return 1
+    if d.get("kind") == "sequence":
+        why = run_sequence(d["left"], d["rights"])
+        print("->", why or "property holds on this sequence")
+        return 1 if why else 0
     c = {k: d[k] for k in ("kind", "left", "right", "cfg", "opts", "late", "mutate") if k in d}
     run_impl(c)
     print("script:", [repr(a) for a in c.get("script", [])])
